@@ -7,7 +7,7 @@ ObjSeq <- ObjSeqDef
 FmtSel = {1, 2}
 RndSel = {1, 2}
 OvfSel = {1, 2}
-GridSel = {2, 4, 6}
+GridSel = {1, 2, 4, 6}
 Acts <- ActsC04
 Depth = 8
 EXT = 4
